@@ -28,6 +28,7 @@ LEVEL_TEXT = (
     "fragments that also match internal module names."
 )
 LEVEL_NOTE = "Internal = module_path's own name, anything below it, and its ancestors (component-wise). External side is checked as 'required present / excluded absent'; further external nodes are only counted."
+LEVEL_TEXT += " Include-mode scans with a FILE exclusion built from an imported external's name. Extra shards scan random projects (a quarter of them wide and deep) under independently drawn options - file exclusions, level limit, kept externals with external exclusions, module_path below the root, module-object entry point - judged by the same deciding steps."
 RULE = (
     "an evaluation = one scan in one configuration; a case = one tree with all its configurations; non-trivial = the tree has external imports and "
     "at least one pattern matched an external or an internal name; distinct = distinct (tree digest, configuration)"
